@@ -54,7 +54,7 @@ DEPS = [
 ]
 
 COMP_NAMES = ["Foo", "Bar", "Foo.Bar", "ui.Button", "A", "X1", "ns.sub.Widget"]
-TAG_NAMES = ["div", "span", "p", "b", "ul"]
+TAG_NAMES = ["div", "span", "p", "b", "ul", "input", "br", "img", "hr"]
 PROP_NAMES = ["id", "class_", "x", "x_", "x__", "data_a", "onClick", "value", "for_", "aB_c", "title"]
 
 
@@ -350,6 +350,25 @@ def body_component(case, note):
         check(False, f"generated JavaScript cannot be read back: {e}", s)
     want = model_node(r)
     check(got == want, "React.createElement expression does not mirror the component", _diff(want, got), s)
+    # something *below* the component changes (a nested tag gets another child and a dependency): the next conversion shows it
+    edited = False
+    for i, (rc, obj) in enumerate(zip(r["kids"], comp.children)):
+        if rc["k"] == "tag" and isinstance(obj, h.Tag):
+            late = {"k": "dep", "name": "late", "version": "3.3"}
+            obj.append("late-child", build(late))
+            kids2 = list(r["kids"])
+            kids2[i] = dict(rc, kids=list(rc["kids"]) + [{"k": "str", "s": "late-child"}, late])
+            r2 = dict(r, kids=kids2)
+            s2 = str(comp)
+            try:
+                got2 = J.parse(extract_expression(s2))
+            except J.JSError as e:
+                check(False, f"generated JavaScript cannot be read back: {e}", s2)
+            check(got2 == model_node(r2), "a conversion after a nested tag was changed does not mirror the component", _diff(model_node(r2), got2), s2)
+            metas2 = [c for c in comp.tagify().children if isinstance(c, h.MetadataNode)][2:]
+            check(sorted(repr(S.snap(m)) for m in metas2) == sorted(repr(S.snap(build(x))) for x in model_metadata(r2, [])), "metadata after a nested tag was changed is not every metadata node of the component tree")
+            edited = True
+            break
     md = model_metadata(r, [])
     deep_meta = any(True for c in r["kids"] if c["k"] in ("tag", "jsx", "tfy") and model_metadata(c, []))
     has_tfy = _has(r, "tfy")
@@ -360,6 +379,7 @@ def body_component(case, note):
         "node-valued-prop" if any(v["t"] == "node" for _, v in effective_props(r)) else "",
         "style-prop" if any(norm(p) == "style" for p, _ in r["props"]) else "",
         "added-later" if any(hw in ("append", "extend") for hw in r["hows"][: len(r["kids"])]) else "",
+        "edited-then-converted-again" if edited else "",
     )
 
 
@@ -437,7 +457,7 @@ CLAUSES = [
         quick=500,
         thorough=8000,
         shards_quick=4,
-        required=("tfy", "metadata-below-top", "node-valued-prop", "style-prop", "added-later"),
+        required=("tfy", "metadata-below-top", "node-valued-prop", "style-prop", "added-later", "edited-then-converted-again"),
         rule="see RULE",
     ),
     Clause("allowlist", body_allow, strategy=allow_case, quick=400, thorough=3000, shards_quick=1, shards_thorough=2, required=("rejected", "accepted"), rule="some but not all props outside the list"),
